@@ -122,6 +122,10 @@ def check(rec, kind, idx, rng, tier):
         nv = int(rng.integers(0, 5))
         vals = [x.item() for x in rng.choice(a[np.isfinite(af)].ravel(), size=min(nv, fin.size), replace=False)] if fin.size else []
         vals += [float(v) for v in rng.choice([-12345.0, 0.5, 7.0, 1e9], size=int(rng.integers(0, 3)))]
+        if rng.random() < 0.35:
+            # a long list of values (mostly absent from the raster) on a raster with repeated cells
+            vals += [float(v) for v in rng.uniform(-500, 500, size=int(rng.integers(15, 45)))]
+            rec.cls('binary.long_value_list')
         if rng.random() < 0.5:
             vals = list(rng.permutation(np.array(vals, dtype=a.dtype if a.dtype.kind == 'f' else 'float64'))) if vals else vals
         vals = [float(v) for v in vals]
@@ -132,7 +136,10 @@ def check(rec, kind, idx, rng, tier):
             pay = dict(func='binary', raster=a, values=vals, dask=dask_, cls=cls)
             if hasattr(out, 'exc'):
                 rec.violation('binary.raises', 'binary raised %r' % out, pay); continue
-            got = np.asarray(out.data.compute() if dask_ else out.data, dtype='float64')
+            gd = rec.call(out.data.compute) if dask_ else out.data
+            if hasattr(gd, 'exc'):
+                rec.violation('binary.dask_raises', 'binary on Dask raised at compute: %r' % gd, pay); continue
+            got = np.asarray(gd, dtype='float64')
             exp = np.where(np.isin(af, np.array(vals, dtype='float64')), 1.0, np.where(np.isfinite(af), 0.0, np.nan))
             d = tol.first_diff_exact(got, exp)
             if len(np.unique(exp[~np.isnan(exp)])) >= 2:
@@ -191,7 +198,10 @@ def check(rec, kind, idx, rng, tier):
                 if hasattr(out, 'exc'):
                     mech = 'reclassify.out_of_bounds_read' if out.type == 'IndexError' else 'reclassify.raises'
                     rec.violation(mech, 'reclassify raised %r' % out, pay); continue
-                got = np.asarray(out.data.compute() if dask_ else out.data, dtype='float64')
+                gd = rec.call(out.data.compute) if dask_ else out.data
+                if hasattr(gd, 'exc'):
+                    rec.violation('reclassify.dask_raises', 'reclassify on Dask raised at compute: %r' % gd, pay); continue
+                got = np.asarray(gd, dtype='float64')
                 d = tol.first_diff_exact(got, exp)
                 if len(np.unique(exp[~np.isnan(exp)])) >= 2:
                     rec.nontriv('reclass', a.tobytes(), tuple(bins), tuple(newv))
@@ -310,6 +320,8 @@ def check(rec, kind, idx, rng, tier):
             if vc == 0: a = rng.integers(0, 30, (H, W)).astype('float64')
             elif vc == 1: a = rng.integers(0, 400, (H, W)) / 8.0
             elif vc == 2: a = (rng.random((H, W)) * 100).astype('float32').astype('float64')
+            if vc in (0, 1) and rng.random() < 0.35:
+                a = a + float(rng.choice([8000.0, 500000.0]))          # offset large against the spread (still exact in float32)
             else: a = rng.uniform(0, 1000, (H, W)) + rng.uniform(0, 1e-7, (H, W))      # not float32-representable
             if rng.random() < 0.3:
                 a = gen.sprinkle(a, rng, 0.1, what=(np.nan, np.inf, -np.inf), where='random')
